@@ -82,8 +82,11 @@ def numeric(rep, fnd, pid, tier):
             mult = int(rng.integers(0, 3))
             N = (base + 2 * mult) * 2 ** (J - 1)
             cfg = dict(wavelet=name, N=N, J=J, L=L)
-            fw = pw.DWT1DForward(J=J, wave=name, mode="periodization")
-            iv = pw.DWT1DInverse(wave=name, mode="periodization")
+            # forward and inverse built from DIFFERENT forms of the same wavelet (name, Wavelet object, custom Wavelet, tuples)
+            kf = names.index(name) + J
+            fw = pw.DWT1DForward(J=J, wave=dwtlib.wave_form(name, kf)[0], mode="per" if kf % 2 else "periodization")
+            iv = pw.DWT1DInverse(wave=dwtlib.wave_form(name, kf + 2, synthesis=True)[0], mode="periodization")
+            cfg["forms"] = [dwtlib.wave_form(name, kf)[1], dwtlib.wave_form(name, kf + 2, synthesis=True)[1]]
             X = torch.eye(N).reshape(N, 1, N)
             yl, yh = fw(X)
             T = np.concatenate([yl[:, 0].numpy().T] + [y[:, 0].numpy().T for y in yh], axis=0)    # [N x N]
@@ -145,8 +148,10 @@ def numeric(rep, fnd, pid, tier):
         H, W = base * 2 ** (J - 1), (base + 2) * 2 ** (J - 1)
         if H * W <= 4096:
             cfg = dict(wavelet=name, H=H, W=W, J=J, L=L)
-            fw = pw.DWTForward(J=J, wave=name, mode="periodization")
-            iv = pw.DWTInverse(wave=name, mode="periodization")
+            kf = names.index(name) + 1
+            fw = pw.DWTForward(J=J, wave=dwtlib.wave_form(name, kf)[0], mode="periodization")
+            iv = pw.DWTInverse(wave=dwtlib.wave_form(name, kf + 3, synthesis=True)[0], mode="per" if kf % 2 else "periodization")
+            cfg["forms"] = [dwtlib.wave_form(name, kf)[1], dwtlib.wave_form(name, kf + 3, synthesis=True)[1]]
             tol = 64 * EPS64 * L * L * J * G ** (4 * J) + 16 * J * L * L * res * G ** (4 * J)
             xa = rng.standard_normal((3, 2, H, W))
             yl, yh = fw(torch.tensor(xa))
